@@ -282,7 +282,11 @@ def _(ctx):
                 sv = z3.Solver()
                 sv.set('timeout', 3000)
                 sv.add(t != ites[0])
-                if sv.check() != z3.unsat:
+                rr_ = sv.check()
+                if rr_ == z3.unknown:
+                    sv.set('timeout', 60000)
+                    rr_ = sv.check()
+                if rr_ != z3.unsat:
                     keep.append(t)
             same = [t for t in ites if not any(z3.eq(t, k_) for k_ in keep[1:])]
             if len(keep) == 1:
